@@ -78,13 +78,14 @@ theorem readLine_flags (s : Sock) : (s.readLine).2.closed = s.closed ∧ ((s.rea
 /-! ## the header block -/
 
 /-- what one line of the header block does to (dictionary, current field name, current field value): a line that
-    starts with white space continues the current field (its trimmed text, when not empty, is joined to the value
+    starts with white space continues the current field, which must exist (c2e6d14) (its trimmed text, when not empty, is joined to the value
     accumulated so far with one space); otherwise the trimmed line is `name ":" value`, the name a non-empty run of bytes
     above the blank other than DEL (no blank or tab before the colon: 9bf376e), and stores the trimmed value
     (possibly empty) under the canonical name; `none`: neither -/
 def foldHeaderLine (st : Dic × Bytes × Bytes) (line : Bytes) : Option (Dic × Bytes × Bytes) :=
   if cIsSpace (line.getD 0 0) then
-    (if (trimmed line).length == 0 then some st
+    (if st.2.1.length == 0 then none
+     else if (trimmed line).length == 0 then some st
      else
        let v := if st.2.2.length == 0 then trimmed line else st.2.2 ++ 32 :: trimmed line
        some (storeHeader st.1 st.2.1 v, st.2.1, v))
@@ -123,15 +124,17 @@ theorem headersStep_cases (x : HSt) :
     rw [at?_zero]
     simp only [bind, Except.bind]
     by_cases hsp : cIsSpace (x.s.readLine.1.getD 0 0) = true
-    · right
-      simp only [hsp, if_true]
+    · simp only [hsp, if_true]
       have hnn : x.s.readLine.1 ≠ [] := by
         intro hnil
         rw [hnil] at hsp
         exact absurd hsp (by decide)
       split
-      · exact ⟨_, rfl, rfl, hne, hnn, rfl⟩
-      · exact ⟨_, rfl, rfl, hne, hnn, rfl⟩
+      · left; exact ⟨_, rfl⟩
+      · right
+        split
+        · exact ⟨_, rfl, rfl, hne, hnn, rfl⟩
+        · exact ⟨_, rfl, rfl, hne, hnn, rfl⟩
     · simp only [hsp, Bool.false_eq_true, if_false]
       cases hf : findByte 58 (cstr (trimmed x.s.readLine.1)) with
       | none => left; exact ⟨_, rfl⟩
